@@ -1,7 +1,8 @@
 """C03 - every produced document is a well-formed docutils tree (structural necessary conditions).
 
-R1-R5 are the rules of DESIGN.md section 5; R6 (a new section receives its title before anything else) was
-added while building because the statement says "start with a title" and the tree violates it.
+R1-R5 are the rules of DESIGN.md section 5 (extended in later rounds); R6 (a new section receives its title before
+anything else) and R7 (the ids of a node are moved, not copied) were added because the statement says so and edits of
+that class were not caught.
 """
 
 from __future__ import annotations
@@ -32,27 +33,64 @@ TECHNIQUE = "value-flow tracing of structural nodes to their attach sites, CFG d
 META = {
     "explanation": (
         "R1: every construction of nodes.section / nodes.transition is traced (through locals, helper parameters and the "
-        "current_node_context manager) to the sites that attach it; each receiver must be self.document, a value of the "
-        "heading level map (whose every writer is shown to store only document/section values) or a node under a dominating "
-        "isinstance(..., document|section) test. R2: in render_table the tgroup `cols`, the number of colspec nodes and the "
-        "rendered header row derive from one length expression; render_table_row attaches exactly one entry per cell token "
-        "on every path, and any other loop in the package that builds a row of nodes.entry (e.g. a re-implemented build_table_row of the rST state mock) may skip the entry only for a span placeholder (the loop element itself is None/false), never depending on the cell's content; (thorough) markdown-it pads body rows to the header width. R3: every refid store takes its value "
-        "from a found registry lookup / docutils set_id (a value of document.nameids, which docutils sets to None for a name defined twice, only under a not-None test), or every path to it passes an XREF_MISSING warning (docutils node "
-        "truthiness read from docutils' source). R4: a manually numbered footnote gets its label as first child, an auto "
-        "footnote is registered with note_autofootnote instead (docutils inserts the label at index 0), never both; all "
-        "registry calls are dominated by a not-a-duplicate test (document.nameids, or the footnote registries the call registers into; any(...) / loop / one-return helper forms); document.footnotes/autofootnotes/symbol_footnotes are only reordered by MyST code, never filtered or truncated. R5: a message node that create_warning(append_to=) already attached is not attached again by the function or by a caller that attaches the returned collection; existing nodes are re-attached only after being "
-        "detached, exactly once; children moved out of a node are moved at most once per path and their old owner is "
-        "discarded on every path. R6: the first child a new section can receive, on every path, is its title."
+        "current_node_context manager) to the sites that attach it; each receiver must be self.document, a value of the heading "
+        "level map - every writer of that map (dict literal/comprehension, dict.fromkeys, copies, item stores, parameters followed "
+        "to their callers) is shown to store only document/section values - or a node under a dominating "
+        "isinstance(..., document|section) test (also behind a one-return helper). "
+        "R2: the tgroup `cols`, the number of colspec nodes and the header row rendered into thead reduce to one symbolic length; "
+        "the tgroup/colspec code, the thead/tbody row rendering and the per-cell code are followed into private helpers of "
+        "render_table / render_table_row (parameters stand for the call's arguments); every row token is rendered once; exactly "
+        "one nodes.entry is attached per cell token on every path; any other loop in the package that builds entries (e.g. a "
+        "re-implemented build_table_row of the rST state mock) may skip the entry only for a span placeholder (the loop element "
+        "itself is None/false); (thorough) markdown-it pads body rows to the header width. "
+        "R3: every refid store takes its value from a found registry lookup (`k in R` / R.get tested; R read from the "
+        "document/env, or a dict filled - locally or by a helper that returns it - from document.nameids / node ids) or from "
+        "document.set_id; a value of document.nameids (None for a name defined twice, read from docutils' source) only under a "
+        "not-None test; otherwise every path to the store has passed an XREF_MISSING warning (directly or through a helper that "
+        "always warns; `not node` is read as `node is None` because docutils' Node.__bool__ returns True). "
+        "R4: a manually numbered footnote gets its label as first possible child, an auto footnote is registered with "
+        "note_autofootnote instead (docutils inserts the label at index 0), never both; the label text is the footnote's name; all "
+        "registry calls are dominated by a not-a-duplicate test on the name (document.nameids, or the footnote registries the call "
+        "registers into; any(...) / loop / one-return helper forms); document.footnotes/autofootnotes/symbol_footnotes are only "
+        "reordered by MyST code, never filtered, truncated or emptied. "
+        "R5: in transforms.py / myst_refs.py an existing node (loop variable over the tree) is re-attached only after being removed "
+        "from its old parent, at most once; children moved out of a node (X.children, followed through helpers) are moved at most "
+        "once per path and the old owner is replaced/removed on every later path; package-wide: a message node that "
+        "create_warning(append_to=) already attached is not attached again by the function or by a caller that attaches the "
+        "returned collection; a node object built outside a loop is not attached inside the loop without being rebuilt. "
+        "R6: the first child a new section can receive, on every path, is its nodes.title (interprocedural may-append summary: "
+        "direct appends, note_*_target(_, msgnode), create_warning(append_to=), becoming the current node; parameter guards of "
+        "helpers evaluated against the call's literal arguments). "
+        "R8: a node constructed locally and made the current node for rendering (current_node_context without append) is afterwards "
+        "attached, handed on or has its children used - not merely read as text (render methods register footnote references, "
+        "targets and ids with the document). "
+        "R7: the ids of a node (item copy incl. loops over literal attribute tuples, update_basic_atts/update_all_atts, ids= "
+        "keyword) are handed to at most one other node per path and the donor is replaced/removed afterwards, by the function, a "
+        "helper or every caller."
     ),
-    "not_decided": "id uniqueness and single parenthood of nodes produced by third-party directives/roles; well-formedness of what docutils/Sphinx transforms produce themselves; value-dependent facts (which ids collide)",
+    "not_decided": (
+        "uniqueness of ids that collide by value (two different nodes given the same name by the document); single parenthood and "
+        "content model of nodes produced by third-party directives/roles or by docutils/Sphinx transforms; whether nodes rendered "
+        "into a root that is handed to another function really end up in the tree (R8 only flags roots that are provably just read as text; C02.R2 decides the attach-once discipline of render methods); table rows built "
+        "by docutils' own Body.build_table_row, to which the state mock delegates; backrefs/refids assigned later by docutils' "
+        "Footnotes transform; anything that depends on run-time values rather than on the shape of the code"
+    ),
     "trusted_base": [
         "CPython ast",
-        "engine call graph (frozen special edges)",
-        "docutils API roles: note_explicit_target/note_implicit_target(target, msgnode) may append a system_message to msgnode; set_id returns the registered id; Node.__bool__ (read from source)",
+        "engine call graph (frozen special edges) and CFG",
+        "docutils API roles: note_explicit_target/note_implicit_target(target, msgnode) may append a system_message to msgnode; "
+        "document.set_id returns the registered id; Element.append/extend/+= re-parent without detaching; update_basic_atts copies ids",
+        "facts parsed from the installed docutils source on every run: Node.__bool__ returns True; document.nameids[name] = None "
+        "for duplicated names; (thorough) Footnotes.number_footnotes inserts the label at index 0",
+        "(thorough) markdown_it/rules_block/table.py: th loop over the header columns, td loop over range(columnCount)",
     ],
     "assumptions": [
         "self.document of the renderer / a Transform is the docutils document node",
-        "markdown-it emits one th/td token per column (checked against its table rule in the thorough tier)",
+        "loop variables in transforms.py and myst_refs.py range over nodes that are already in the tree; X.children are existing children",
+        "a `for` target named in the loop over footnote registries / nameids items has the docutils meaning of that registry",
+        "the indirect-target branch of ResolveAnchorIds (labelid = node['names'][0]) is unreachable: MyST never calls "
+        "note_indirect_target on the document it renders into (tabled, shape re-verified on every run)",
+        "render_hr attaching a transition under any parent is a known finding (F9), listed in known_findings.json",
     ],
 }
 
@@ -1269,11 +1307,28 @@ def r4_footnote_shape(corpus: Corpus, rep: Report, tier: str):
 # R2 table width single source
 
 
+# callee fq -> (call, caller): while R2 evaluates a helper, its parameters stand for the caller's arguments
+_CALL_CTX: dict[str, tuple[ast.Call, FunctionInfo]] = {}
+
+
+def _param_arg(fi: FunctionInfo, name: str):
+    """(argument expr, caller) bound to parameter ``name`` of helper ``fi`` in the active call context, or None."""
+    if name in fi.params and fi.fq in _CALL_CTX:
+        call, caller = _CALL_CTX[fi.fq]
+        arg = _arg_for(fi, call, name)
+        if arg is not _NOARG:
+            return arg, caller
+    return None
+
+
 def _canon(e: ast.expr, fi: FunctionInfo, depth: int = 0) -> str:
     """Expression text with singly-assigned locals replaced by their defining access path."""
     if depth > 8:
         raise Unsupported("alias chain too deep")
     if isinstance(e, ast.Name):
+        pa = _param_arg(fi, e.id)
+        if pa is not None:
+            return _canon(pa[0], pa[1], depth + 1)
         if e.id in fi.params:
             return f"<{e.id}>"
         v = _single_value(fi, e.id)
@@ -1292,6 +1347,9 @@ def _canon(e: ast.expr, fi: FunctionInfo, depth: int = 0) -> str:
 def _len_of(e: ast.expr, fi: FunctionInfo, depth: int = 0) -> str:
     if depth > 8:
         raise Unsupported("length chain too deep")
+    if isinstance(e, ast.Name) and _param_arg(fi, e.id) is not None:
+        pa = _param_arg(fi, e.id)
+        return _len_of(pa[0], pa[1], depth + 1)
     if isinstance(e, ast.Name) and e.id not in fi.params:
         v = _single_value(fi, e.id)
         if v is None:
@@ -1323,6 +1381,9 @@ def _count_of(e: ast.expr, fi: FunctionInfo, depth: int = 0) -> str:
     if isinstance(e, ast.Constant) and isinstance(e.value, int):
         return str(e.value)
     if isinstance(e, ast.Name):
+        pa = _param_arg(fi, e.id)
+        if pa is not None:
+            return _count_of(pa[0], pa[1], depth + 1)
         v = _single_value(fi, e.id)
         if v is not None:
             return _count_of(v, fi, depth + 1)
@@ -1349,6 +1410,92 @@ def _attached_ctor_in(st: ast.AST, fi: FunctionInfo, cls: str) -> int:
     return k
 
 
+def _pkg_callees(corpus: Corpus, fi: FunctionInfo, call: ast.Call) -> list[FunctionInfo]:
+    return [t for t in get_callgraph(corpus).resolve_call(call, fi) if isinstance(t, FunctionInfo) and not t.is_lambda]
+
+
+def _entries_per_call(corpus: Corpus, fi: FunctionInfo, cls: str, depth: int = 0) -> set[int]:
+    """How many nodes of class ``cls`` one call of ``fi`` attaches (set over its normal paths, saturating at 2)."""
+    if depth > 2:
+        return {0}
+    cfg = get_cfg(fi)
+    res = cfg.counts(ENTRY, [EXIT], lambda x: _stmt_attaches(corpus, x, fi, cls, depth)[1] if isinstance(x, ast.AST) else 0)
+    lo = cfg.counts(ENTRY, [EXIT], lambda x: _stmt_attaches(corpus, x, fi, cls, depth)[0] if isinstance(x, ast.AST) else 0)
+    return set(res.get(EXIT, {0})) | set(lo.get(EXIT, {0}))
+
+
+def _stmt_attaches(corpus: Corpus, st: ast.AST, fi: FunctionInfo, cls: str, depth: int = 0) -> tuple[int, int]:
+    """(min, max) number of ``cls`` nodes the CFG statement attaches, directly or through helpers it calls."""
+    lo = hi = _attached_ctor_in(st, fi, cls)
+    for h in _header_exprs(st):
+        for c in ast.walk(h):
+            if isinstance(c, ast.Call) and not (isinstance(c.func, ast.Attribute) and c.func.attr == "current_node_context"):
+                for t in _pkg_callees(corpus, fi, c):
+                    if t.fq == fi.fq or not any(_ctor_class(t, x) == cls for x in t.local_nodes()):
+                        continue
+                    got = _entries_per_call(corpus, t, cls, depth + 1)
+                    lo, hi = lo + min(got), hi + max(got)
+    return lo, hi
+
+
+def _iter_attach_counts(corpus: Corpus, fi: FunctionInfo, lp: ast.For, cls: str, exempt=lambda n: False) -> set[int]:
+    cfg = get_cfg(fi)
+    return _iteration_counts(cfg, lp, lambda x: _stmt_attaches(corpus, x, fi, cls)[0], exempt) | _iteration_counts(cfg, lp, lambda x: _stmt_attaches(corpus, x, fi, cls)[1], exempt)
+
+
+def _row_sites(corpus: Corpus, fi: FunctionInfo, rr: FunctionInfo, env: dict[str, tuple[ast.expr, FunctionInfo]], depth: int = 0) -> list[dict]:
+    """Where ``fi`` (render_table or a helper of it) renders row tokens: container kind (thead/tbody),
+    'single' row expression or 'each' element of an iterable, all expressed in the caller's terms."""
+    out: list[dict] = []
+    if depth > 2:
+        return out
+
+    def resolve(e: ast.expr) -> tuple[ast.expr, FunctionInfo]:
+        if isinstance(e, ast.Name) and e.id in env and not _bindings(fi, e.id):
+            return env[e.id]
+        return e, fi
+
+    for c in fi.local_nodes():
+        if not isinstance(c, ast.Call):
+            continue
+        tg = _pkg_callees(corpus, fi, c)
+        if any(t.fq == rr.fq for t in tg) and c.args:
+            kinds = set()
+            for w in _ancestors_with(c):
+                for it in w.items:
+                    ce = it.context_expr
+                    if isinstance(ce, ast.Call) and isinstance(ce.func, ast.Attribute) and ce.func.attr == "current_node_context" and ce.args:
+                        x, xfi = resolve(ce.args[0])
+                        k = _local_ctor(xfi, x)
+                        if k:
+                            kinds.add(k)
+            kind = "thead" if "docutils.nodes.thead" in kinds else "tbody" if "docutils.nodes.tbody" in kinds else None
+            arg = c.args[0]
+            lp = next((a for a in _ancestors(c) if isinstance(a, ast.For) and isinstance(arg, ast.Name) and unparse(a.target) == arg.id), None)
+            if lp is not None:
+                it, ifi = resolve(lp.iter if not (isinstance(lp.iter, ast.BoolOp) and isinstance(lp.iter.op, ast.Or)) else lp.iter)
+                if isinstance(it, (ast.List, ast.Tuple)) and len(it.elts) == 1:
+                    out.append({"kind": kind, "mode": "single", "expr": it.elts[0], "fi": ifi, "loop": lp, "loop_fi": fi, "call": c})
+                else:
+                    out.append({"kind": kind, "mode": "each", "expr": it, "fi": ifi, "loop": lp, "loop_fi": fi, "call": c})
+            else:
+                x, xfi = resolve(arg)
+                out.append({"kind": kind, "mode": "single", "expr": x, "fi": xfi, "loop": None, "loop_fi": fi, "call": c})
+        else:
+            for t in tg:
+                if t.fq in (fi.fq, rr.fq) or t.cls is None or t.cls is not fi.cls and fi.cls is not None and t.cls.fq != fi.cls.fq:
+                    continue
+                if not any(isinstance(x, ast.Call) and any(u.fq == rr.fq for u in _pkg_callees(corpus, t, x)) for x in t.local_nodes()):
+                    continue
+                sub_env = {}
+                for pn in t.params:
+                    a = _arg_for(t, c, pn) if pn not in ("self", "cls") else _NOARG
+                    if a is not _NOARG:
+                        sub_env[pn] = resolve(a)
+                out.extend(_row_sites(corpus, t, rr, sub_env, depth + 1))
+    return out
+
+
 @rule("C03.R2")
 def r2_table_width(corpus: Corpus, rep: Report, tier: str):
     rep.rule("C03.R2", "tgroup cols, number of colspec nodes and the rendered header row derive from one length; one entry per cell token on every path")
@@ -1356,92 +1503,104 @@ def r2_table_width(corpus: Corpus, rep: Report, tier: str):
     rr = corpus.func("mdit_to_docutils.base:DocutilsRenderer.render_table_row")
     rep.saw_function(rt.fq)
     rep.saw_function(rr.fq)
-    cfg = get_cfg(rt)
-    tg = [c for c in rt.local_nodes() if _ctor_class(rt, c) == "docutils.nodes.tgroup"]
+    _CALL_CTX.clear()
+    try:
+        _r2_body(corpus, rep, tier, rt, rr)
+    finally:
+        _CALL_CTX.clear()
+
+
+def _r2_body(corpus: Corpus, rep: Report, tier: str, rt: FunctionInfo, rr: FunctionInfo) -> None:
+    # the tgroup: built in render_table or in a helper it calls (parameters then stand for the call's arguments)
+    owner, tg = rt, [c for c in rt.local_nodes() if _ctor_class(rt, c) == "docutils.nodes.tgroup"]
+    if not tg:
+        for c in rt.local_nodes():
+            if isinstance(c, ast.Call):
+                for t in _pkg_callees(corpus, rt, c):
+                    sub = [x for x in t.local_nodes() if _ctor_class(t, x) == "docutils.nodes.tgroup"]
+                    if sub and t.fq != rt.fq:
+                        owner, tg = t, sub
+                        _CALL_CTX[t.fq] = (c, rt)
+                        rep.saw_function(t.fq)
     if len(tg) != 1:
-        raise Unsupported(f"expected one tgroup construction in render_table, found {len(tg)}")
+        raise Unsupported(f"expected one tgroup construction in render_table (or a helper it calls), found {len(tg)}")
+    cfg = get_cfg(owner)
     cols = kwarg(tg[0], "cols")
     if cols is None:
-        rep.violation("C03.R2", f"{rt.fq}|tgroup without cols", rt.module.site(tg[0]), "tgroup is built without `cols`: writers index colspecs by it")
+        rep.violation("C03.R2", f"{rt.fq}|tgroup without cols", owner.module.site(tg[0]), "tgroup is built without `cols`: writers index colspecs by it")
         return
-    n_cols = _count_of(cols, rt)
-    # header row actually rendered into thead
-    hdr_calls = []
-    body_calls = []
-    for c in rt.local_nodes():
-        if isinstance(c, ast.Call) and any(isinstance(t, FunctionInfo) and t.fq == rr.fq for t in get_callgraph(corpus).resolve_call(c, rt)):
-            ctxs = [w for w in _ancestors_with(c) for it in w.items if isinstance(it.context_expr, ast.Call) and it.context_expr.args]
-            kinds = {_local_ctor(rt, it.context_expr.args[0]) for w in ctxs for it in w.items if isinstance(it.context_expr, ast.Call) and it.context_expr.args}
-            if "docutils.nodes.thead" in kinds:
-                hdr_calls.append(c)
-            elif "docutils.nodes.tbody" in kinds:
-                body_calls.append(c)
-            else:
-                raise Unsupported(f"`{short(c, 50)}` renders a row outside thead/tbody")
-    if len(hdr_calls) != 1 or not hdr_calls[0].args:
-        raise Unsupported(f"expected exactly one header-row render in render_table, found {len(hdr_calls)}")
-    hdr = _canon(hdr_calls[0].args[0], rt)
-    want = f"len({hdr}.children)"
+    n_cols = _count_of(cols, owner)
+    sites = _row_sites(corpus, rt, rr, {})
+    for s_ in sites:
+        rep.saw_function(s_["loop_fi"].fq)
+    if any(s_["kind"] is None for s_ in sites):
+        raise Unsupported("a table row is rendered outside a thead/tbody context")
+    hdr = [s_ for s_ in sites if s_["kind"] == "thead"]
+    body = [s_ for s_ in sites if s_["kind"] == "tbody"]
+    if len(hdr) != 1 or hdr[0]["mode"] != "single":
+        raise Unsupported(f"expected exactly one header row rendered into thead, found {[(h['mode'], short(h['expr'], 30)) for h in hdr]}")
+    want = f"len({_canon(hdr[0]['expr'], hdr[0]['fi'])}.children)"
     k = f"{rt.fq}|tgroup cols = width of the rendered header row"
     if n_cols == want:
-        rep.ok("C03.R2", k, rt.module.site(tg[0]), f"cols = {n_cols}")
+        rep.ok("C03.R2", k, owner.module.site(tg[0]), f"cols = {n_cols}")
     else:
-        rep.violation("C03.R2", k, rt.module.site(tg[0]), f"cols is {n_cols} but the header row rendered into thead has {want} entries: rows and declared columns disagree")
-    # colspec loop
-    loops = [st for st in rt.local_nodes() if isinstance(st, ast.For) and any(_attached_ctor_in(b, rt, "docutils.nodes.colspec") for b in ast.walk(st) if isinstance(b, ast.stmt) and b is not st)]
-    direct = [st for st in rt.local_nodes() if isinstance(st, ast.stmt) and not isinstance(st, (ast.For, ast.If, ast.With, ast.While, ast.Try)) and _attached_ctor_in(st, rt, "docutils.nodes.colspec") and st not in [b for l in loops for b in ast.walk(l)]]
+        rep.violation("C03.R2", k, owner.module.site(tg[0]), f"cols is {n_cols} but the header row rendered into thead has {want} entries: rows and declared columns disagree")
+    # colspec loop (in the function that builds the tgroup)
+    loops = [st for st in owner.local_nodes() if isinstance(st, ast.For) and any(_attached_ctor_in(b, owner, "docutils.nodes.colspec") for b in ast.walk(st) if isinstance(b, ast.stmt) and b is not st)]
+    in_loops = [b for l in loops for b in ast.walk(l)]
+    direct = [st for st in owner.local_nodes() if isinstance(st, ast.stmt) and not isinstance(st, (ast.For, ast.If, ast.With, ast.While, ast.Try)) and _attached_ctor_in(st, owner, "docutils.nodes.colspec") and st not in in_loops]
     k = f"{rt.fq}|number of colspec nodes = cols"
     if len(loops) == 1 and not direct:
         lp = loops[0]
-        n_spec = _len_of(lp.iter, rt)
-        per = cfg.counts(("T", lp), [lp, EXIT], lambda x: _attached_ctor_in(x, rt, "docutils.nodes.colspec") if isinstance(x, ast.stmt) and x is not lp else 0)
+        n_spec = _len_of(lp.iter, owner)
+        per = cfg.counts(("T", lp), [lp, EXIT], lambda x: _attached_ctor_in(x, owner, "docutils.nodes.colspec") if isinstance(x, ast.stmt) and x is not lp else 0)
         per_ok = all(v <= {1} for v in per.values()) and per.get(lp)
         if n_spec == n_cols and per_ok:
-            rep.ok("C03.R2", k, rt.module.site(lp), f"one colspec per element of a sequence of length {n_spec}")
+            rep.ok("C03.R2", k, owner.module.site(lp), f"one colspec per element of a sequence of length {n_spec}")
         elif not per_ok:
-            rep.violation("C03.R2", k, rt.module.site(lp), f"the colspec loop does not attach exactly one colspec per iteration on every path ({ {str(a)[:20]: sorted(b) for a, b in per.items()} })")
+            rep.violation("C03.R2", k, owner.module.site(lp), f"the colspec loop does not attach exactly one colspec per iteration on every path ({ {str(a)[:20]: sorted(b) for a, b in per.items()} })")
         else:
-            rep.violation("C03.R2", k, rt.module.site(lp), f"{n_spec} colspec nodes are attached but tgroup declares cols = {n_cols}")
+            rep.violation("C03.R2", k, owner.module.site(lp), f"{n_spec} colspec nodes are attached but tgroup declares cols = {n_cols}")
     else:
-        rep.error("C03.R2", f"{rt.site()}: colspec attachment is not a single loop ({len(loops)} loops, {len(direct)} direct): not modelled")
-    # every colspec goes to the tgroup
+        rep.error("C03.R2", f"{owner.site()}: colspec attachment is not a single loop ({len(loops)} loops, {len(direct)} direct): not modelled")
     # body rows: each rendered once by the same row renderer
     k = f"{rt.fq}|body rows rendered by the row renderer, once each"
-    if len(body_calls) == 1:
-        lp = next((a for a in _ancestors(body_calls[0]) if isinstance(a, ast.For)), None)
-        if lp is not None and unparse(lp.target) == unparse(body_calls[0].args[0]):
-            per = cfg.counts(("T", lp), [lp, EXIT], lambda x: 1 if isinstance(x, ast.stmt) and x is not lp and body_calls[0] in ast.walk(x) and not isinstance(x, (ast.For, ast.If, ast.While, ast.With, ast.Try)) else 0)
-            if all(v <= {1} for v in per.values()) and per.get(lp):
-                rep.ok("C03.R2", k, rt.module.site(lp))
-            else:
-                rep.violation("C03.R2", k, rt.module.site(lp), "a body row can be skipped or rendered twice")
+    if len(body) == 1 and body[0]["mode"] == "each" and body[0]["loop"] is not None:
+        lp, lfi, call = body[0]["loop"], body[0]["loop_fi"], body[0]["call"]
+        lcfg = get_cfg(lfi)
+        per = lcfg.counts(("T", lp), [lp, EXIT], lambda x: 1 if isinstance(x, ast.stmt) and x is not lp and any(call is y for y in ast.walk(x)) and not isinstance(x, (ast.For, ast.If, ast.While, ast.With, ast.Try)) else 0)
+        src_ok = _canon(body[0]["expr"], body[0]["fi"]).endswith(".children")
+        if all(v <= {1} for v in per.values()) and per.get(lp) and src_ok:
+            rep.ok("C03.R2", k, lfi.module.site(lp))
+        elif not src_ok:
+            rep.error("C03.R2", f"{lfi.module.site(lp)}: body rows iterate `{short(body[0]['expr'], 40)}`, not the children of a token")
         else:
-            rep.error("C03.R2", f"{rt.site()}: body-row render is not `for row in ...: render_table_row(row)`")
+            rep.violation("C03.R2", k, lfi.module.site(lp), "a body row can be skipped or rendered twice")
     else:
-        rep.error("C03.R2", f"{rt.site()}: expected one body-row render call, found {len(body_calls)}")
-    # render_table_row: one entry per child token
-    cfg2 = get_cfg(rr)
+        rep.error("C03.R2", f"{rt.site()}: body-row render is not one `for row in <token>.children: render_table_row(row)` ({[(b['mode'], short(b['expr'], 30)) for b in body]})")
+    # render_table_row: one entry per child token (the entry may be attached by a per-cell helper)
     tok = rr.params[1] if len(rr.params) > 1 else None
-    loops = [st for st in rr.local_nodes() if isinstance(st, ast.For) and any(_attached_ctor_in(b, rr, "docutils.nodes.entry") for b in ast.walk(st) if isinstance(b, ast.stmt) and b is not st)]
+    loops = [st for st in rr.local_nodes() if isinstance(st, ast.For) and any(_stmt_attaches(corpus, b, rr, "docutils.nodes.entry")[1] for b in ast.walk(st) if isinstance(b, ast.stmt) and b is not st)]
+    loops = [l for l in loops if not any(o is not l and any(o is y for y in ast.walk(l)) for o in loops)]
     k = f"{rr.fq}|one entry per cell token"
     if len(loops) != 1:
         rep.error("C03.R2", f"{rr.site()}: expected one loop attaching nodes.entry, found {len(loops)}")
     else:
         lp = loops[0]
         it = _canon(lp.iter, rr)
-        per = cfg2.counts(("T", lp), [lp, EXIT], lambda x: _attached_ctor_in(x, rr, "docutils.nodes.entry") if isinstance(x, ast.AST) and x is not lp else 0)
+        got = _iter_attach_counts(corpus, rr, lp, "docutils.nodes.entry")
         if it != f"<{tok}>.children":
             rep.violation("C03.R2", k, rr.module.site(lp), f"the entry loop iterates {it}, not the row token's children")
-        elif per.get(lp) and all(v <= {1} for v in per.values()):
+        elif got and got <= {1}:
             rep.ok("C03.R2", k, rr.module.site(lp), "exactly one nodes.entry attached on every path through the loop body")
         else:
-            rep.violation("C03.R2", k, rr.module.site(lp), f"some path through the cell loop attaches {sorted(set().union(*per.values()))} entries: the row gets fewer/more cells than the table declares columns")
-        # entries outside the loop
-        extra = [st for st in rr.local_nodes() if isinstance(st, ast.stmt) and st not in list(ast.walk(lp)) and not isinstance(st, (ast.For, ast.If, ast.With, ast.While, ast.Try)) and _attached_ctor_in(st, rr, "docutils.nodes.entry")]
-        extra += [st for st in rr.local_nodes() if isinstance(st, ast.With) and st not in list(ast.walk(lp)) and _attached_ctor_in(st, rr, "docutils.nodes.entry")]
+            rep.violation("C03.R2", k, rr.module.site(lp), f"some path through the cell loop attaches {sorted(got)} entries: the row gets fewer/more cells than the table declares columns")
+        inside = list(ast.walk(lp))
+        extra = [st for st in rr.local_nodes() if isinstance(st, ast.stmt) and not any(st is y for y in inside) and not isinstance(st, (ast.For, ast.If, ast.While, ast.Try)) and not (isinstance(st, ast.With) and any(lp is y for y in ast.walk(st))) and _attached_ctor_in(st, rr, "docutils.nodes.entry")]
         if extra:
             rep.violation("C03.R2", f"{rr.fq}|entry outside the cell loop", rr.module.site(extra[0]), "an extra nodes.entry is attached outside the per-cell loop")
-    _other_row_builders(corpus, rep, skip={rr.fq})
+    helpers = {t.fq for st in ast.walk(rr.node) if isinstance(st, ast.Call) for t in _pkg_callees(corpus, rr, st) if any(_ctor_class(t, x) == "docutils.nodes.entry" for x in t.local_nodes())}
+    _other_row_builders(corpus, rep, skip={rr.fq} | helpers)
     if tier == "thorough":
         _mdit_table_padding(corpus, rep)
     rep.expect_min("C03.R2", 4, "cols/header, colspec count, body rows, one entry per cell")
@@ -1816,7 +1975,22 @@ class _Refid:
         bs = _bindings(fi, reg)
         if bs and all(v is not None and _doc_rooted(v) for _, v, _ in bs):
             return "reg", f"found lookup in `{reg}` (read from the document/environment)"
-        # a dict built locally: the element at position idx of every stored value must be an id
+        # a registry built by a helper of the package: judge the dict the helper returns
+        if len(bs) == 1 and isinstance(bs[0][1], ast.Call) and bs[0][2] is None and depth < 4:
+            tgs = [t for t in get_callgraph(self.c).resolve_call(bs[0][1], fi) if isinstance(t, FunctionInfo) and not t.is_lambda]
+            if len(tgs) == 1:
+                t = tgs[0]
+                rets = [n for n in t.local_nodes() if isinstance(n, ast.Return)]
+                names = {n.value.id for n in rets if isinstance(n.value, ast.Name)}
+                if rets and len(names) == 1 and all(isinstance(n.value, ast.Name) for n in rets):
+                    k, why = self._filled_dict(t, names.pop(), idx, depth + 1)
+                    return k, (why + f" (built by {t.qualname})" if k == "reg" else why)
+                raise Unsupported(f"registry `{reg}` comes from {t.qualname}, which does not return one local dict")
+        return self._filled_dict(fi, reg, idx, depth)
+
+    def _filled_dict(self, fi: FunctionInfo, reg: str, idx: int | None, depth: int) -> tuple[str, str]:
+        """A dict built locally: the element at position idx of every stored value must be an id."""
+        bs = _bindings(fi, reg)
         stores = [n for n in fi.local_nodes() if isinstance(n, ast.Assign) and any(isinstance(t, ast.Subscript) and isinstance(t.value, ast.Name) and t.value.id == reg for t in n.targets)]
         if not stores or not all(isinstance(v, ast.Dict) and not v.keys for _, v, _ in bs if v is not None):
             return "no", f"`{reg}` is neither read from the document nor a locally filled dict"
@@ -2043,6 +2217,60 @@ def _returned_with(fi: FunctionInfo, name: str) -> ast.Return | None:
     return None
 
 
+def _is_node_valued(corpus: Corpus, fi: FunctionInfo, v: ast.expr | None) -> bool:
+    """Does the expression construct (or obtain from docutils' reporter / create_warning) a fresh node object?"""
+    if not isinstance(v, ast.Call):
+        return False
+    c = _ctor_class(fi, v)
+    if c and (c.startswith("docutils.nodes.") or c.startswith("sphinx.addnodes.")) and c.rsplit(".", 1)[1] not in ("fully_normalize_name", "whitespace_normalize_name", "make_id", "unescape"):
+        return True
+    if _create_warning_call(v):
+        return True
+    if isinstance(v.func, ast.Attribute) and v.func.attr in ("warning", "error", "info", "severe", "system_message") and "reporter" in unparse(v.func.value):
+        return True
+    if isinstance(v.func, ast.Attribute) and v.func.attr == "deepcopy" and not v.args:
+        return True
+    return False
+
+
+def _built_once_attached_in_loop(corpus: Corpus, rep: Report) -> None:
+    """A node object built before a loop and attached inside it (without being rebuilt in the loop) is attached
+    once per iteration: the same object ends up in several child lists / several times in one."""
+    n = 0
+    for fi in corpus.all_functions():
+        if fi.is_lambda or fi.module.name.endswith("._docs"):
+            continue
+        for node, recv, vals, how in _attach_events(fi):
+            loops = [a for a in _ancestors(node) if isinstance(a, (ast.For, ast.While))]
+            if not loops:
+                continue
+            rb = _single_value(fi, recv.id, ignore_aug=True) if isinstance(recv, ast.Name) else None
+            if isinstance(rb, (ast.List, ast.Dict, ast.Set)) or (isinstance(rb, ast.Call) and dotted(rb.func) in ("list", "dict", "set")):
+                continue  # a plain Python container
+            for v in vals:
+                if not isinstance(v, ast.Name) or _shadowed(v) or v.id in fi.params:
+                    continue
+                allb = [(b, val, idx) for b, val, idx in _bindings(fi, v.id) if not isinstance(b, ast.AugAssign)]
+                if not allb:
+                    continue
+                cfg = get_cfg(fi)
+                st = cfg.stmt_of(node)
+                rebinds = {cfg.stmt_of(b) for b, _, _ in allb}
+                # only the bindings that can reach the attach site matter
+                bs = [(b, val) for b, val, idx in allb if cfg.paths_avoiding(cfg.stmt_of(b), st, lambda x, me=cfg.stmt_of(b): x in rebinds and x is not me)]
+                if not bs or any(idx is not None for b, _, idx in allb if any(b is b2 for b2, _ in bs)) or not all(_is_node_valued(corpus, fi, val) for _, val in bs):
+                    continue
+                n += 1
+                again = any(cfg.paths_avoiding(s_, st, lambda x: x in rebinds) for s_ in cfg.succ.get(st, []) if s_ not in rebinds)
+                key = f"{fi.fq}|node built once, attached once|{short(node, 70)}"
+                site = fi.module.site(node)
+                rep.saw_function(fi.fq)
+                if again:
+                    rep.violation("C03.R5", key, site, f"`{v.id}` is built by `{short(bs[0][1], 50)}` outside the loop and attached on every iteration without being rebuilt: the same node object is listed several times / under several parents")
+                else:
+                    rep.ok("C03.R5", key, site, f"`{v.id}` is rebuilt before every attach")
+
+
 def _attach_and_return(corpus: Corpus, rep: Report) -> None:
     """create_warning(..., append_to=X) attaches the message node to X *and* returns it: a result obtained
     that way must not be attached again (directly, or by a caller that attaches the returned collection)."""
@@ -2104,7 +2332,7 @@ def _attach_and_return(corpus: Corpus, rep: Report) -> None:
 
 @rule("C03.R5")
 def r5_single_parent(corpus: Corpus, rep: Report, tier: str):
-    rep.rule("C03.R5", "an existing node is re-attached only after being detached, exactly once; children are moved out of a node at most once per path and the old owner is discarded on every path; a node already attached by create_warning(append_to=) is not attached again")
+    rep.rule("C03.R5", "an existing node is re-attached only after being detached, exactly once; children are moved out of a node at most once per path and the old owner is discarded on every path; a node already attached by create_warning(append_to=) is not attached again; a node built outside a loop is not attached inside it without being rebuilt")
     mv = _Moves(corpus)
     n_inst = 0
     for modname in SURGERY_MODULES:
@@ -2210,10 +2438,194 @@ def r5_single_parent(corpus: Corpus, rep: Report, tier: str):
                 else:
                     rep.ok("C03.R5", key, site, "every path after the move replaces/removes the old owner")
     _attach_and_return(corpus, rep)
+    _built_once_attached_in_loop(corpus, rep)
     rep.expect_min("C03.R5", 3, "CollectFootnotes re-attach; children moves in ResolveAnchorIds.apply (2) and the Sphinx resolver (9 judged instances on the pinned tree)")
 
 
-RULES = [r1_structural_guard, r2_table_width, r3_refid_provenance, r4_footnote_shape, r5_single_parent, r6_section_title_first]
+
+# ---------------------------------------------------------------------------
+# R7 ids are moved, not copied
+
+
+def _ids_transfers(fi: FunctionInfo) -> list[tuple[ast.AST, str, str, str]]:
+    """(node, donor name, receiver text, how) for every construct that hands the ids of one node to another."""
+    out = []
+
+    def attr_is_ids(e: ast.expr, at: ast.AST) -> bool:
+        if isinstance(e, ast.Constant):
+            return e.value == "ids"
+        if isinstance(e, ast.Name):
+            for a in _ancestors(at):
+                if isinstance(a, ast.For) and isinstance(a.target, ast.Name) and a.target.id == e.id:
+                    c = _literal_container(a.iter)
+                    if c is None:
+                        try:
+                            c = fi.module.eval_const(a.iter)
+                        except Exception:
+                            return False  # keys computed at run time (a dict-to-dict copy): not the ids of a node
+                    try:
+                        return "ids" in c
+                    except TypeError:
+                        return False
+        return False
+
+    for n in fi.local_nodes():
+        if isinstance(n, ast.Assign) and isinstance(n.value, ast.Subscript) and isinstance(n.value.value, ast.Name):
+            for t in n.targets:
+                if isinstance(t, ast.Subscript) and unparse(t.slice) == unparse(n.value.slice) and unparse(t.value) != n.value.value.id and attr_is_ids(t.slice, n):
+                    out.append((n, n.value.value.id, unparse(t.value), f"`{short(n, 50)}`"))
+        elif isinstance(n, ast.Call) and isinstance(n.func, ast.Attribute):
+            a = n.func.attr
+            if a in ("update_basic_atts", "update_all_atts", "update_all_atts_concatenating", "update_all_atts_coercion", "update_all_atts_convert") and n.args and isinstance(n.args[0], ast.Name):
+                out.append((n, n.args[0].id, unparse(n.func.value), f"`{short(n, 50)}` (copies ids, names, classes, dupnames)"))
+            elif a == "extend" and isinstance(n.func.value, ast.Subscript) and isinstance(n.func.value.slice, ast.Constant) and n.func.value.slice.value == "ids" and n.args and isinstance(n.args[0], ast.Subscript) and isinstance(n.args[0].value, ast.Name) and isinstance(n.args[0].slice, ast.Constant) and n.args[0].slice.value == "ids":
+                out.append((n, n.args[0].value.id, unparse(n.func.value.value), f"`{short(n, 50)}`"))
+            kw = kwarg(n, "ids")
+            if kw is not None and isinstance(kw, ast.Subscript) and isinstance(kw.value, ast.Name) and isinstance(kw.slice, ast.Constant) and kw.slice.value == "ids" and _is_node_type(_ctor_class(fi, n)):
+                p_ = parent(n)
+                tgt = unparse(p_.targets[0]) if isinstance(p_, ast.Assign) else short(n, 30)
+                out.append((n, kw.value.id, tgt, f"`ids={unparse(kw)}`"))
+    return out
+
+
+@rule("C03.R7")
+def r7_ids_moved_not_copied(corpus: Corpus, rep: Report, tier: str):
+    rep.rule("C03.R7", "the ids of a node are handed to at most one other node per path, and the donor then leaves the tree (identifiers stay unique)")
+    mv = _Moves(corpus)
+    n = 0
+    for fi in corpus.all_functions():
+        if fi.is_lambda or fi.module.name.endswith("._docs"):
+            continue
+        tr = _ids_transfers(fi)
+        if not tr:
+            continue
+        rep.saw_function(fi.fq)
+        cfg = get_cfg(fi)
+        for donor in sorted({d for _, d, _, _ in tr}):
+            evs = [(nd, r, h) for nd, d, r, h in tr if d == donor]
+            n += 1
+            site = fi.module.site(evs[0][0])
+            binder = [st for st in fi.local_nodes() if isinstance(st, ast.For) and any(isinstance(x, ast.Name) and x.id == donor for x in ast.walk(st.target)) and all(any(nd is y for y in ast.walk(st)) for nd, _, _ in evs)]
+            lp = min(binder, key=lambda l: l.end_lineno - l.lineno) if binder else None
+            key = f"{fi.fq}|ids of `{donor}` go to one node"
+            bad = None
+            for a, ra, ha in evs:
+                for b, rb_, hb in evs:
+                    if a is b or ra == rb_:
+                        continue
+                    sa, sb = cfg.stmt_of(a), cfg.stmt_of(b)
+                    if sa is sb or cfg.paths_avoiding(sa, sb, lambda x: x is lp):
+                        bad = (ha, ra, hb, rb_)
+            if bad:
+                rep.violation("C03.R7", key, site, f"{bad[0]} and {bad[2]} both hand the ids of `{donor}` on, to `{bad[1]}` and to `{bad[3]}`, on one path: two nodes of the tree carry the same ids")
+            else:
+                rep.ok("C03.R7", key, site, f"received by `{evs[0][1]}` only")
+            # the donor must not stay in the tree with the same ids
+            key = f"{fi.fq}|donor `{donor}` of the ids leaves the tree"
+            if donor in fi.params:
+                callers = get_callgraph(corpus).callers().get(fi.fq, [])
+                if mv.discards_always(fi, donor):
+                    rep.ok("C03.R7", key, site, "the helper replaces/removes its parameter on every path")
+                elif callers and all(_caller_discards(mv, cfi, call, fi, donor) for cfi, call in callers):
+                    rep.ok("C03.R7", key, site, "every caller replaces/removes the node after the call")
+                else:
+                    rep.violation("C03.R7", key, site, f"`{donor}` keeps its ids after handing them on and neither this helper nor every caller removes it from the tree")
+                continue
+            ds = mv.discard_stmts(fi, donor)
+            stops = [EXIT] + ([lp] if lp is not None else [])
+            leak = None
+            for nd, _, _ in evs:
+                st = cfg.stmt_of(nd)
+                if st in ds:
+                    continue
+                for stop in stops:
+                    if cfg.paths_avoiding(st, stop, lambda x: x in ds):
+                        leak = st
+            if leak is not None:
+                rep.violation("C03.R7", key, fi.module.site(leak), f"after `{short(leak, 60)}` some path leaves `{donor}` in the tree together with the node that received its ids: duplicate identifiers")
+            else:
+                rep.ok("C03.R7", key, site, "replaced/removed on every path after the transfer")
+    rep.expect_min("C03.R7", 1, "the ids/names/dupnames hand-over to the pending_xref's inline in ResolveAnchorIds")
+
+
+def _caller_discards(mv, cfi: FunctionInfo, call: ast.Call, callee: FunctionInfo, pname: str) -> bool:
+    arg = _arg_for(callee, call, pname)
+    if not isinstance(arg, ast.Name):
+        return False
+    cfg = get_cfg(cfi)
+    ds = mv.discard_stmts(cfi, arg.id)
+    st = cfg.stmt_of(call)
+    if st in ds:
+        return True
+    loops = [a for a in _ancestors(call) if isinstance(a, ast.For) and any(isinstance(x, ast.Name) and x.id == arg.id for x in ast.walk(a.target))]
+    stops = [EXIT] + loops[:1]
+    return not any(cfg.paths_avoiding(st, stop, lambda x: x in ds) for stop in stops)
+
+
+
+# ---------------------------------------------------------------------------
+# R8 nothing is rendered into a throw-away node
+
+TEXT_READERS = {"clean_astext", "astext", "add_line_and_source_path", "add_line_and_source_path_r", "copy_attributes", "isinstance", "len", "str", "repr"}
+
+
+@rule("C03.R8")
+def r8_no_throwaway_render_root(corpus: Corpus, rep: Report, tier: str):
+    rep.rule("C03.R8", "a fresh node that is made the current node for rendering is attached / handed on, not merely read as text (rendering registers ids, footnote references and targets with the document)")
+    n = 0
+    for fi in corpus.all_functions():
+        if fi.is_lambda or fi.module.name.endswith("._docs"):
+            continue
+        for c in fi.local_nodes():
+            if not (isinstance(c, ast.Call) and isinstance(c.func, ast.Attribute) and c.func.attr == "current_node_context" and c.args and isinstance(c.args[0], ast.Name)):
+                continue
+            a = kwarg(c, "append") or (c.args[1] if len(c.args) > 1 else None)
+            if isinstance(a, ast.Constant) and a.value is True:
+                continue  # attached by the context manager itself
+            var = c.args[0].id
+            if var in fi.params or _shadowed(c.args[0]):
+                continue
+            bs = [(st, v) for st, v, idx in _bindings(fi, var) if not isinstance(st, ast.AugAssign)]
+            if not bs or not all(v is not None and _is_node_type(_ctor_class(fi, v)) and isinstance(v, ast.Call) for _, v in bs):
+                continue  # not a node constructed here
+            n += 1
+            rep.saw_function(fi.fq)
+            key = f"{fi.fq}|render root `{short(bs[0][1], 40)}` is kept|{short(c, 50)}"
+            site = fi.module.site(c)
+            kept = None
+            for u in fi.local_nodes():
+                if not (isinstance(u, ast.Name) and u.id == var and isinstance(u.ctx, ast.Load)) or u is c.args[0] or _shadowed(u):
+                    continue
+                p_ = parent(u)
+                if isinstance(p_, ast.Attribute) and p_.value is u:
+                    if p_.attr == "children" or (isinstance(parent(p_), ast.Call) and parent(p_).func is p_ and p_.attr not in TEXT_READERS and p_.attr in ("deepcopy", "pop", "traverse", "findall")):
+                        kept = kept or f"its children are used (`{short(parent(p_), 40)}`)"
+                    continue  # attribute read/write, x.append(...) (x as receiver), x.astext()
+                if isinstance(p_, ast.Subscript) and p_.value is u:
+                    continue
+                if isinstance(p_, (ast.Call, ast.keyword)):
+                    call = p_ if isinstance(p_, ast.Call) else parent(p_)
+                    fname = (dotted(call.func) or unparse(call.func)).rsplit(".", 1)[-1]
+                    if fname in TEXT_READERS or fname in REGISTRY_CALLS:
+                        continue
+                    if fname == "current_node_context":
+                        aa = kwarg(call, "append") or (call.args[1] if len(call.args) > 1 else None)
+                        if isinstance(aa, ast.Constant) and aa.value is True:
+                            kept = kept or "attached by current_node_context(append=True)"
+                        continue
+                    kept = kept or f"handed to `{short(call, 40)}`"
+                    continue
+                kept = kept or f"used in `{short(p_, 40)}`"
+            if kept:
+                rep.ok("C03.R8", key, site, kept)
+            else:
+                rep.violation("C03.R8", key, site, f"`{var}` is built here, made the current node while children are rendered into it, and afterwards only read as text / for attributes: whatever the render methods registered with the document (footnote references, targets, ids) now refers to nodes that are not in the tree")
+    rep.expect_min("C03.R8", 8, "render roots built locally and entered without append=True (title, thead/tbody, definition-list and field-list parts, link nodes)")
+
+
+
+
+RULES = [r1_structural_guard, r2_table_width, r3_refid_provenance, r4_footnote_shape, r5_single_parent, r6_section_title_first, r7_ids_moved_not_copied, r8_no_throwaway_render_root]
 
 
 # ---------------------------------------------------------------------------
@@ -2343,6 +2755,52 @@ def mutants(corpus: Corpus):
     f = base.func("DocutilsRenderer.run_directive")
     c = find_node(f, lambda n: isinstance(n, ast.Call) and _create_warning_call(n) and kwarg(n, "append_to") is None and isinstance(parent(n), ast.Assign))
     add("c03-unknown-directive-warning-attached-twice", "C03.R5", base, c.keywords[-1].value if c is not None and c.keywords else None, (unparse(c.keywords[-1].value) + ", append_to=self.current_node") if c is not None and c.keywords else "", "warning node attached once")
+    # built once, attached in a loop
+    for modname, q, mid in (("parsers.docutils_", "Parser.parse", "c03-raw-warning-hoisted-docutils"), ("parsers.sphinx_", "MystParser.parse", "c03-raw-warning-hoisted-sphinx")):
+        pm = corpus.mod(modname)
+        f = pm.func(q)
+        lp = find_node(f, lambda n: isinstance(n, ast.For) and any(isinstance(x, ast.Assign) and "reporter.warning" in unparse(x.value) for x in n.body) and any("replace" in unparse(x) for x in n.body))
+        if lp is not None:
+            asg = next(x for x in lp.body if isinstance(x, ast.Assign) and "reporter.warning" in unparse(x.value))
+            ind = _indent(pm, lp)
+            rest = "".join("\n" + ind + "    " + _stmt_text(pm, x) for x in lp.body if x is not asg)
+            add(mid, "C03.R5", pm, lp, _stmt_text(pm, asg) + "\n" + ind + f"for {unparse(lp.target)} in {unparse(lp.iter)}:" + rest, "node built once")
+        else:
+            out.append((mid, "raw-replacement loop not found"))
+    f = base.func("DocutilsRenderer.render_table")
+    lp = find_node(f, lambda n: isinstance(n, ast.For) and any(isinstance(x, ast.Assign) and "nodes.colspec" in unparse(x.value) for x in n.body))
+    if lp is not None and isinstance(lp.target, ast.Name):
+        asg = next(x for x in lp.body if isinstance(x, ast.Assign) and "nodes.colspec" in unparse(x.value))
+        ind = _indent(base, lp)
+        rest = "".join("\n" + ind + "    " + _stmt_text(base, x) for x in lp.body if x is not asg)
+        import re as _re
+
+        first = _re.sub(r"\b" + _re.escape(lp.target.id) + r"\b(?!\s*=)", f"{unparse(lp.iter)}[0]", unparse(asg))
+        add("c03-colspec-built-once-for-all-columns", "C03.R5", base, lp, first + "\n" + ind + f"for {unparse(lp.target)} in {unparse(lp.iter)}:" + rest, "node built once")
+    else:
+        out.append(("c03-colspec-built-once-for-all-columns", "colspec loop not found"))
+    # ---- R8: rendering into a node that is only read as text / never attached
+    f = base.func("DocutilsRenderer.render_image")
+    st = find_node(f, lambda n: isinstance(n, ast.Assign) and isinstance(n.value, ast.Call) and unparse(n.value.func) == "self.renderInlineAsText")
+    if st is not None:
+        ind = _indent(base, st)
+        add("c03-image-alt-rendered-into-scratch-node", "C03.R8", base, st, f"alt_node = nodes.inline()\n{ind}with self.current_node_context(alt_node):\n{ind}    self.render_children(token)\n{ind}{unparse(st.targets[0])} = alt_node.astext()", "render_image")
+    else:
+        out.append(("c03-image-alt-rendered-into-scratch-node", "renderInlineAsText assignment not found in render_image"))
+    f = base.func("DocutilsRenderer.render_field_list")
+    st = find_node(f, lambda n: isinstance(n, ast.AugAssign) and unparse(n.value) == "field_name")
+    add("c03-field-name-rendered-but-not-attached", "C03.R8", base, st, "pass", "render_field_list")
+    # ---- R7: ids handed to two nodes / donor kept
+    f = tf.func("ResolveAnchorIds.apply")
+    st = find_node(f, lambda n: isinstance(n, ast.Assign) and isinstance(n.targets[0], ast.Name) and n.targets[0].id == "inner_node")
+    if st is not None:
+        add("c03-pending-xref-also-takes-link-ids", "C03.R7", tf, st, "pending.update_basic_atts(refnode)\n" + _indent(tf, st) + _stmt_text(tf, st), "ids of `refnode`")
+    else:
+        out.append(("c03-pending-xref-also-takes-link-ids", "inner_node construction not found"))
+    c = find_node(f, lambda n: isinstance(n, ast.Call) and unparse(n.func) == "addnodes.pending_xref")
+    add("c03-pending-xref-built-with-link-ids", "C03.R7", tf, c.keywords[-1].value if c is not None and c.keywords else None, (unparse(c.keywords[-1].value) + ', ids=refnode["ids"]') if c is not None and c.keywords else "", "ids of `refnode`")
+    c = find_node(f, lambda n: isinstance(n, ast.Call) and unparse(n) == "refnode.parent.replace(refnode, pending)")
+    add("c03-ids-donor-kept-in-tree", "C03.R7", tf, c, "refnode.parent.insert(refnode.parent.index(refnode), pending)", "donor `refnode`")
     # ---- R3: document.nameids values may be None
     f = tf.func("ResolveAnchorIds.apply")
     tests = [n for n in f.local_nodes() if isinstance(n, ast.If) and unparse(n.test) == "labelid is None"]
